@@ -52,10 +52,12 @@ type Stats struct {
 type Result struct {
 	OK     bool
 	End    int
-	Root   *Node   // derivation tree of the entry rule (nil unless OK)
-	ErrTok *Tok    // first non-empty token that reached the furthest end during the attempt (nil: none)
-	XTrace []Trace // execution-order trace of every action reached (no-AST model)
-	Budget bool    // step budget exhausted: result is not to be judged
+	Root   *Node // derivation tree of the entry rule (nil unless OK)
+	ErrTok *Tok  // first non-empty token that reached the furthest end during the attempt (nil: none)
+	// ErrTokRules: the same among rule applications only (-noast parsers record no captures)
+	ErrTokRules *Tok
+	XTrace      []Trace // execution-order trace of every action reached (no-AST model)
+	Budget      bool    // step budget exhausted: result is not to be judged
 	// Unspecified: the run tested a rune against a class whose documented meaning does not
 	// settle the answer (mixed-case bounds of a case-insensitive range): not to be judged
 	Unspecified bool
@@ -71,6 +73,8 @@ type interp struct {
 	st     Stats
 	// attempt log summary
 	errTok *Tok
+	// the same over rule applications only (a parser without syntax tree records no captures)
+	errTokRules *Tok
 	// no-AST model
 	xtrace         []Trace
 	xtext          string
@@ -99,6 +103,7 @@ func Run(g *gram.Grammar, entry int, input []rune, budget int) (res Result) {
 		res.Root = kids[0]
 	}
 	res.ErrTok = it.errTok
+	res.ErrTokRules = it.errTokRules
 	res.Unspecified = it.unspecified
 	res.XTrace = it.xtrace
 	res.Stats = it.st
@@ -110,6 +115,9 @@ func (it *interp) complete(n *Node) {
 	// every completed record takes part in the furthest-token rule, whether it survives or not
 	if n.B != n.E && (it.errTok == nil || n.E > it.errTok.E) {
 		it.errTok = &Tok{n.Name, n.B, n.E}
+	}
+	if n.B != n.E && n.Name != "PegText" && (it.errTokRules == nil || n.E > it.errTokRules.E) {
+		it.errTokRules = &Tok{n.Name, n.B, n.E}
 	}
 }
 
